@@ -108,7 +108,7 @@ def alloc : Nat → Tree → Heap → Val × Heap
   | f+1, .map es, h =>
     let (ks, h1) := allocList (alloc f) (es.map fun e => e.2.1) h
     let (vs, h2) := allocList (alloc f) (es.map fun e => e.2.2) h1
-    let ents := (es.zip (ks.zip vs)).map fun (e, k, v) => (⟨e.1, k, v⟩ : Entry)
+    let ents := (es.zip (ks.zip vs)).foldl (fun acc (e, k, v) => mapSet ⟨e.1, k, v⟩ acc) []
     (.ref h2.length, h2 ++ [.map ents])
 
 def MAX_NOTIFY_LENGTH : Nat := 65536
